@@ -146,7 +146,10 @@ class World:
             if fp in self.seen and not evicted and not recache:
                 if cls != 'hit' or ran != 0:
                     self.fails.append({'kind': 'repeat_not_hit', 'detail': f'identical successful request was stored earlier but [{note}] was classified {cls}, compiler ran {ran}x', 'ops': list(self.trace)})
-            if cls in ('hit', 'miss'):
+            # a miss whose store failed (the server counted a cache write error: e.g. a directory sits where the entry belongs) has stored nothing
+            stored = cls == 'hit' or (cls == 'miss' and after.get('cache_write_errors', 0) == before.get('cache_write_errors', 0))
+            if not stored: self.seen.pop(fp, None)
+            if stored:
                 self.seen[fp] = True
                 if len(self.snaps) < 40: self.snaps.append((dict(self.files), list(self.flags), self.lang, self.out, dict(self.env)))
         if cls == 'hit' and ran != 0:
@@ -703,6 +706,12 @@ def run_extra_files(root, tag, compiler):
             for i, text in enumerate(texts):
                 w.write('ign.lst', text)
                 w.request(f'list file {name} #{i}: ign.lst = {text!r}'); reqs += 1
+            # the file named by the option is missing: the compiler's own error is the answer (F-C01-s: sccache answers with a fatal error of its own)
+            os.remove(os.path.join(w.w, 'ign.lst')); w.files.pop('ign.lst', None)
+            n_before = len(w.fails)
+            w.request(f'list file {name}: ign.lst removed', expect_cacheable=False); reqs += 1
+            for f in w.fails[n_before:]:
+                if f['kind'] == 'differs_from_direct': f['kind'] = 'missing_option_file_fatal_error'
             fails += [dict(f, detail=f'list-file scenario {name}: ' + f['detail']) for f in w.fails if f['kind'] not in KNOWN_DEVIATIONS][:2]
             samples.append(' ; '.join(w.trace))
         finally:
